@@ -92,6 +92,31 @@ def corrupt(lines, how):
             if e["e"] == "expect" and e["ran"]:
                 e["ran"] = e["ran"][1:]
                 return ev, ("C03", "model-ran-extra")
+    if how == "explain-reason":
+        for e in ev:
+            if e["e"] == "pl" and e.get("x", {}).get("kind") == "norec":
+                e["x"]["kind"] = "changed"
+                return ev, ("CONF", "explain")
+    if how == "explain-listing":
+        for e in ev:
+            if e["e"] == "pl" and e.get("x", {}).get("kind") == "sig" and e["x"]["ins"]:
+                e["x"]["ins"][0][1] += 1
+                return ev, ("CONF", "explain")
+    if how == "explain-dropped":
+        for i, e in enumerate(ev):
+            if e["e"] == "pl" and e.get("x", {}).get("kind") in ("norec", "missing"):
+                ev.pop(i)
+                return ev, ("CONF", "explain")
+    if how == "log-location":
+        for e in ev:
+            if e["e"] == "end":
+                e["dbat"] = ["elsewhere/.n2_db"]
+                return ev, ("C18", "log-location")
+    if how == "model-summary":
+        for e in ev:
+            if e["e"] == "expect":
+                e["nok"] += 1
+                return ev, ("C19", "model-summary")
     if how == "exit":
         for e in ev:
             if e["e"] == "end":
@@ -116,9 +141,10 @@ def run():
     g = n2gen.graph([n2gen.step(["a"], ["in"]), n2gen.step(["b"], ["a"]), n2gen.step(["c"], ["a"], pool="p"),
                      n2gen.step(["d"], ["b", "c"])], pools=[("p", 1)])
     ops = [n2gen.manifest_op(g), {"op": "write", "path": "in"},
-           n2gen.invoke([], j=2, outcomes={3: "fail"}), n2gen.invoke([], j=2),
-           {"op": "expect", "ran": ["c", "d"], "ok": True, "deps": [[], [], [], []], "recorded": [1, 2, 3, 4]},
-           n2gen.invoke([], j=2)]
+           n2gen.invoke([], j=2, outcomes={3: "fail"}, explain=True), n2gen.invoke([], j=2, explain=True),
+           {"op": "expect", "ran": ["c", "d"], "ok": True, "deps": [[], [], [], []], "recorded": [1, 2, 3, 4], "nok": 2},
+           {"op": "write", "path": "in"},
+           n2gen.invoke([], j=2, explain=True)]
     sp = os.path.join(wdir, "s.ndjson")
     n2gen.dump([n2gen.scenario("self", ops)], sp)
     res = D.run_harness_shards(sp, os.path.join(wdir, "t"), 1, 1)
@@ -128,7 +154,8 @@ def run():
     print("%-34s %s" % ("uncorrupted trace", "accepted" if not v["viol"] else "REJECTED %s" % v["viol"][:3]))
     ok &= not v["viol"]
     for how in ("swap-start-finish", "counts", "drop-dbw", "j", "loaded", "exit", "set-counts", "set-pending",
-                "set-pools", "drop-promotion", "early-ready", "illegal-transition", "model-ran"):
+                "set-pools", "drop-promotion", "early-ready", "illegal-transition", "model-ran",
+                "explain-reason", "explain-listing", "explain-dropped", "log-location", "model-summary"):
         ev, (prop, tag) = corrupt(lines, how)
         if ev is None:
             print("%-34s could not be applied" % how); ok = False; continue
